@@ -182,7 +182,7 @@ def check_tables(run, f, cfg, sp):
                     elif shape == "union":
                         txt = kw.render(f, linkers[d], kw.TRAITS[tab["trait"]], tab["method"], [val, Opaque("select")])
                     elif shape == "order":
-                        txt = kw.render(f, linkers[d], kw.TRAITS[tab["trait"]], tab["method"], [{"expr": Opaque("e"), "order": val, "nulls": None}])
+                        txt = kw.render(f, linkers[d], kw.TRAITS[tab["trait"]], tab["method"], [{"expr": Var("crate::expr::SimpleExpr::Column", [Opaque("e")]), "order": val, "nulls": None}])
                     else:
                         continue
                 except Unsupported as e:
